@@ -102,6 +102,13 @@ pub fn boundary_values_raw(code: Code, seed: u64, extras: usize) -> BTreeSet<u64
         Code::Golomb(b) | Code::MinBin(b) => {
             let sbits = if b == 1 { 0 } else { 64 - (b - 1).leading_zeros() };
             let short = ((1u128 << sbits) - b as u128) as u64;
+            // multiples of the modulus around every power of two (remainder boundary x magnitude boundary)
+            for i in 1..64u32 {
+                let m = ((1u64 << i) / b) * b;
+                for x in [m.wrapping_sub(1), m, m.wrapping_add(1), m.wrapping_add(b - 1), m.wrapping_add(b)] {
+                    s.insert(x);
+                }
+            }
             let rs = [0, 1, short.wrapping_sub(1), short, short.wrapping_add(1), b - 1, b / 2];
             for q in 0..3u64 {
                 for r in rs {
